@@ -29,6 +29,7 @@ type streamReader interface {
 	getChunkType() reflect.Type
 	merge([]streamReader) streamReader
 	withKey(string) streamReader
+	withErrWrapper(func(error) error) streamReader
 	close()
 	toAnyStreamReader() *schema.StreamReader[any]
 }
@@ -85,6 +86,13 @@ func (srp streamReaderPacker[T]) withKey(key string) streamReader {
 	ret := schema.StreamReaderWithConvert[T, map[string]any](srp.sr, convert)
 
 	return packStreamReader(ret)
+}
+
+// withErrWrapper hands every error item of the stream through wrapper; the chunks are left alone.
+func (srp streamReaderPacker[T]) withErrWrapper(wrapper func(error) error) streamReader {
+	return packStreamReader(schema.StreamReaderWithConvert(srp.sr, func(t T) (T, error) {
+		return t, nil
+	}, schema.WithErrWrapper(wrapper)))
 }
 
 func (srp streamReaderPacker[T]) toAnyStreamReader() *schema.StreamReader[any] {
